@@ -27,6 +27,8 @@ fn main() {
         "codec-record" => xv::codec::cmd_record(rest),
         "cursor-replay" => xv::cursor::cmd_replay(rest),
         "cursor-record" => xv::cursor::cmd_record(rest),
+        "pack-replay" => xv::pack::cmd_replay(rest),
+        "pack-record" => xv::pack::cmd_record(rest),
         other => {
             eprintln!("unknown subcommand {}", other);
             2
